@@ -163,7 +163,7 @@ def run_prbs(K, n, seed_kind):
     def run(ex):
         fn = Fn(*K.repo.find('devices.PRBS')[:2])
         return ex.call_fn(fn, [n, L, seed], {'return_seed': True})
-    paths = K.paths(run, pre, setup)
+    paths = K.paths(run, pre, setup, expect_loops=True)
     rep = make_replay(n, L, seed)
     small = [L <= 40, L >= -2] + ([seed <= 2 ** (n + 1), seed >= -2 ** (n + 1)] if seed is not None else [])
     tag = f'[n={n},seed={seed_kind}]'
@@ -235,6 +235,26 @@ def resume(K):
                 S2(k + 1) == S(a + (k + 1)), words='resume lemma, induction step: second call emits bit0(S(a+k)), i.e. PRBS(a+b) = PRBS(a) ++ PRBS(b, seed=state)')
 
 
+@clause('C04.frame', min_obl=6)
+def frame(K):
+    """no state kept between calls, results not shared between callers: short concrete lengths (the loop unrolls), symbolic seed;
+    independent of the loop contract, so it still speaks when the generator loop is moved into a helper"""
+    from .common import frame_violations, purity_violations
+    fn = Fn(*K.repo.find('devices.PRBS')[:2])
+    seed = z3.Int('seed')
+    for n in (7, 9, 31):
+        for ln in (1, 6):
+            for rs in (False, True):
+                ps = K.paths(lambda ex: ex.call_fn(fn, [n, ln, seed], {'return_seed': rs}), [seed >= 1, seed < 2 ** n])
+                for p in ps:
+                    sig = f'{n},len={ln},return_seed={rs}][{p.signature()}'
+                    if p.kind != 'ret':
+                        K.prove(f'noraise[{sig}]', p.pc, False, words='PRBS accepts a seed in 1..2^n-1 and a positive length')
+                        continue
+                    bad = frame_violations(p)
+                    (K.fail if bad else K.ok)(f'frame[{sig}]', '; '.join(bad) if bad else 'no module-level state written, no memoised mutable result: equal calls give independent, equal results')
+
+
 @clause('C04.validate', min_obl=10)
 def validate(K):
     fn = Fn(*K.repo.find('devices.PRBS')[:2])
@@ -268,7 +288,7 @@ def validate(K):
 
         def setup(ex, n=n):
             setup_loop(ex, n, 2 ** n - 1, S)
-        ps = K.paths(lambda ex: ex.call_fn(fn, [n], {'seed': seed}), [S(0) == z3.Int2BV(spec_seed(seed, n), W)], setup)
+        ps = K.paths(lambda ex: ex.call_fn(fn, [n], {'seed': seed}), [S(0) == z3.Int2BV(spec_seed(seed, n), W)], setup, expect_loops=True)
         for p in ps:
             if p.kind == 'ret':
                 K.prove(f'default_len[{n}][{p.signature()}]', p.pc, tonum(p.value.f['data'].shape[0]) == 2 ** n - 1, words='len=None gives one full period 2^n-1')
@@ -365,7 +385,7 @@ def code_step(K, n):
     L = z3.Int('len')
     S = z3.Function('S', z3.IntSort(), z3.BitVecSort(W))
     fn = Fn(*K.repo.find('devices.PRBS')[:2])
-    ps = K.paths(lambda ex: ex.call_fn(fn, [n, L, z3.Int('seed')], {'return_seed': True}), [], lambda ex: setup_loop(ex, n, L, S))
+    ps = K.paths(lambda ex: ex.call_fn(fn, [n, L, z3.Int('seed')], {'return_seed': True}), [], lambda ex: setup_loop(ex, n, L, S), expect_loops=True)
     for p in ps:
         if p.kind == 'end':
             ghost, env = p.ex.loop_post['C04.loop']
